@@ -13,7 +13,7 @@ from dateutil.parser import parse as parse_datetime
 
 from rpv.drive_cli import COUNTRY_METHODS, Workspace
 from rpv.drive_inproc import Fraction_
-from rpv.gen import ASSETS, METHODS, Profile, history, own_years, schedule
+from rpv.gen import ASSETS, EXCHANGES, METHODS, Profile, history, own_years, schedule
 from rpv.model import Model
 from rpv.oracle.balance import is_valid
 from rpv.oracle.reports import FullReport, num, snap, split_dir_type
@@ -67,7 +67,7 @@ def add_dust_account(rng: random.Random, hist: Dict[str, Any]) -> None:
 
     from rpv.gen import dstr, fmt_ts, parse_ts
 
-    exchange = "Ledger"
+    exchange = EXCHANGES[3]
     if exchange not in hist["exchanges"]:
         hist["exchanges"] = list(hist["exchanges"]) + [exchange]
     holder = rng.choice(hist["holders"])
